@@ -435,6 +435,56 @@ def run(ctx):
         else:
             r.bad("order", "anchor-missing: PreludeWriter calls in write_prelude (%s)" % sorted(seen), fn=f)
 
+    with ctx.rule("C09.OFFSET", "the byte offset printed in front of a line is the event's offset plus the line's (or match's) position "
+                  "inside the event's bytes", floor=8, kind="FLOW") as r:
+        ABO = "grep_searcher::sink::SinkMatch::absolute_byte_offset"
+        SABO = P + "::util::Sunk::absolute_byte_offset"
+
+        def peel(e):
+            while isinstance(e, X) and (e.k in ("cast", "ref", "deref") or (e.k == "field" and e[2] == "(tuple)" and e[3] == "0" and
+                                                                              isinstance(e[1], X) and e[1].k == "bin")):
+                e = e[1]
+            return e
+
+        def is_base(e):
+            return is_call(peel(e), SABO, ABO)
+
+        def is_pos(e):
+            # a position inside the event's bytes: the start of a Match (all Match values of the printer are relative to them)
+            return is_call(peel(e), "grep_matcher::Match::start")
+
+        def is_line_len(e):
+            # the full length (terminator included) of a line handed out by the event's own line iterator
+            e = peel(e)
+            return is_call(e, "[T]::len", "core::slice::<impl [T]>::len") and any(is_call(x, "core::iter::traits::iterator::Iterator::next") for x in walk(e)) \
+                and not any(is_call(x, "grep_matcher::Match::len") for x in walk(e))
+        nsite = 0
+        for n_, f in sorted(facts.fns.items()):
+            if not n_.startswith(P + "::standard::StandardImpl::"):
+                continue
+            eb = ExprBuilder(f)
+            for i, c in enumerate(f.calls_to(P + "::standard::StandardImpl::write_prelude")):
+                nsite += 1
+                key = "offset|%s|%d" % (n_.split("::")[-1], i)
+                e = peel(eb.operand(c.args[1]))
+                ok_ = False
+                if is_base(e):
+                    ok_, why = True, "the event's own offset"
+                elif e.k == "bin" and e[1] in ("Add", "AddWithOverflow") and ((is_base(e[2]) and is_pos(e[3])) or (is_base(e[3]) and is_pos(e[2]))):
+                    ok_, why = True, "event offset + Match::start"
+                elif e.k == "phi":
+                    parts = [peel(x) for x in e[2]]
+                    incs = [x for x in parts if not is_base(x)]
+                    if any(is_base(x) for x in parts) and incs and all(
+                            x.k == "bin" and x[1] in ("Add", "AddWithOverflow") and (is_line_len(x[3]) or is_line_len(x[2])) for x in incs):
+                        ok_, why = True, "running offset: starts at the event's offset, grows by each full line's length"
+                if ok_:
+                    r.ok(key, why, fn=f)
+                else:
+                    r.bad(key, "%s prints `%s` as a line's byte offset: not the event's offset plus a position inside the event's bytes, so "
+                          "the number no longer locates the line in the input (with a two-byte terminator, with trimming, …)"
+                          % (n_.split("::")[-1], show(e)[:120]), fn=f, loc=c.loc, construct="offset")
+        r.note_sites(nsite)
     with ctx.rule("C09.PATHS", "printer path selection: fast paths only without spans; multi-line paths only in multi-line mode", floor=2,
                   kind="GUARD") as r:
         f = facts.fn(P + "::standard::StandardImpl::sink")
